@@ -390,8 +390,36 @@ def run_unit(unit_dir, repo='/repo', tier='quick', seed=0, keep=None, rlimit=Non
         # reported as a violation: the verifier knows nothing about what that closure returns, so the
         # failure may be an artefact of the new construct (undecided, exit 2, never an alarm)
         kept = []
+        persisting = set()
+        if new_opaque and any(f['fn'] in new_opaque for f in first['failures']):
+            # second opinion (oracle mode): give every new contract-less closure `ensures false`; what still
+            # fails does not depend on the closure's unknown result and is a genuine failed obligation
+            try:
+                bo = extract.build(unit_dir, repo, canary=False, auto_off=auto_off,
+                                   oracle={fn: set(v) for fn, v in new_opaque.items()})
+                geno = os.path.join(work, name + '_oracle.rs')
+                open(geno, 'w').write(bo['text'])
+                cmd = [VERUS, geno, '--triggers-mode', 'silent', '--error-format=json', '--output-json',
+                       '--multiple-errors', '20', '--rlimit', rl]
+                rc, so, se, dt = _run(cmd, work, unit.get('timeout', 600))
+                od = []
+                for ln in se.split('\n'):
+                    if ln.strip().startswith('{'):
+                        try:
+                            od.append(json.loads(ln))
+                        except ValueError:
+                            pass
+                of, ou = classify(od, bo)
+                if not ou:
+                    persisting = set(f['id'] for f in of)
+                res['oracle'] = {'persisting': sorted(persisting), 'undecided': [u[:200] for u in ou][:2]}
+            except extract.Undecided as ex:
+                res['oracle'] = {'persisting': [], 'undecided': [str(ex)[:200]]}
         for f in first['failures']:
-            if f['fn'] in new_opaque:
+            if f['fn'] in new_opaque and f['id'] in persisting:
+                f['message'] += ' (fails also when the new contract-less closures are assumed to return anything)'
+                kept.append(f)
+            elif f['fn'] in new_opaque:
                 res['reasons'].append('unsupported construct: %s now passes a closure without a contract to `%s`; '
                                       'obligation not decided: %s' % (f['fn'], '`, `'.join(sorted(set(new_opaque[f['fn']]))), f['id']))
             else:
